@@ -7,6 +7,8 @@ UNITS = {
     "provision": dict(engine="verus", serves=["C16"]),
     "telemetry": dict(engine="verus", serves=["C18"]),
     "setup": dict(engine="verus", serves=["C17"]),
+    "panics": dict(engine="verus", serves=["C13"]),
+    "panic_bytes": dict(engine="kani", serves=["C13", "C14"], path="kani/panic_bytes", kind="Kani harnesses over verbatim byte-level slices (bounded UTF-16 frame; full-domain byte map)"),
     "authorizer": dict(engine="verus", serves=["C03", "C11", "C01"]),
 }
 
@@ -156,6 +158,15 @@ PROPERTIES["C15"] = dict(
                "unchanged; ServiceBuilder::layer/clone preserve the limit. should_skip_sig's exact exemption list is decided in unit sign. "
                "Not covered: the exact status for the chunked over-limit case is what the collect error maps to (400).",
     design_ref="DESIGN.md section 3 C15",
+    assumptions=[],
+)
+
+PROPERTIES["C13"] = dict(
+    units=["panics", "panic_bytes", "handler", "provision", "telemetry", "disk"],
+    technique="Verus' own safety obligations (slice/char boundary, index, arithmetic overflow, unwrap preconditions) on the functions under contract",
+    level_text="Deductive proof (Verus/Z3) for the functions under contract.",
+    level_note="see evidence",
+    design_ref="DESIGN.md section 3 C13",
     assumptions=[],
 )
 
